@@ -69,37 +69,57 @@ structure GateIn where
 /-- `(self.batch_size / 2).max(SLOW_SYNC_MIN_THRESHOLD)` -/
 def slowThreshold (slowMin batchSize : Nat) : Nat := max (batchSize / 2) slowMin
 
-/-- `Worker::fetch_next_batch` up to the point where the request task is created.
+/-- the slow-sync gate: `true` = do not fetch now -/
+def slowSyncStop (slowMin : Nat) (i : GateIn) (nextBatch : Range) : Res Bool :=
+  -- `self.highest_slow_sync_height.is_some_and(|height| *next_batch.end() <= height)`
+  let inSlow := match i.slowSync with
+    | some h => decide (nextBatch.2 ≤ h)
+    | none => false
+  if inSlow then
+    -- `(store_ranges - sampled_ranges).len()`
+    match sub i.stored i.sampled with
+    | .error e => .error e
+    | .ok unsampled =>
+      match len unsampled with
+      | .error e => .error e
+      | .ok available => .ok (decide (available > slowThreshold slowMin i.batchSize))
+  else .ok false
+
+/-- the sampling-window gate on `bound = next_batch.end() + 1`.
     `prunedBoundCheck = true`: the current code; `false`: the code before the C25 fix. -/
-def fetchDecisionWith (prunedBoundCheck : Bool) (slowMin : Nat) (i : GateIn) : Res Decision := do
-  if i.ongoing then return .idle .ongoing
-  if i.connectedPeers == 0 then return .idle .noPeers
-  match i.head with
-  | none => return .idle .noHead
-  | some head =>
-    -- `let synced_ranges = pruned_ranges + &store_ranges;`
-    let synced ← add i.pruned i.stored
-    let nextBatch ← FetchRange.calculateRangeToFetch head synced i.batchSize
-    if Range.isEmpty nextBatch then return .idle .nothingToFetch
-    -- slow sync
-    let inSlow := match i.slowSync with
-      | some h => decide (nextBatch.2 ≤ h)
-      | none => false
-    let slowStop ← if inSlow then do
-        let unsampled ← sub i.stored i.sampled
-        let available ← len unsampled
-        pure (decide (available > slowThreshold slowMin i.batchSize))
-      else pure false
-    if slowStop then return .idle .slowSync
-    -- sampling window
-    let bound ← addU64 nextBatch.2 1
-    if contains i.stored bound then
-      -- `Ok(known_header)`
-      if !i.inWindow bound then return .idle .boundOutsideWindow
-    else
-      -- `Err(StoreError::NotFound)`
-      if prunedBoundCheck && contains synced bound then return .idle .boundPruned
-    return .request nextBatch
+def windowGate (prunedBoundCheck : Bool) (i : GateIn) (synced : Ranges) (nextBatch : Range) (bound : Nat) :
+    Decision :=
+  if contains i.stored bound then
+    -- `Ok(known_header)`
+    if i.inWindow bound then .request nextBatch else .idle .boundOutsideWindow
+  else
+    -- `Err(StoreError::NotFound)`
+    if prunedBoundCheck && contains synced bound then .idle .boundPruned else .request nextBatch
+
+/-- `Worker::fetch_next_batch` up to the point where the request task is created. -/
+def fetchDecisionWith (prunedBoundCheck : Bool) (slowMin : Nat) (i : GateIn) : Res Decision :=
+  if i.ongoing then .ok (.idle .ongoing)
+  else if i.connectedPeers == 0 then .ok (.idle .noPeers)
+  else
+    match i.head with
+    | none => .ok (.idle .noHead)
+    | some head =>
+      -- `let synced_ranges = pruned_ranges + &store_ranges;`
+      match add i.pruned i.stored with
+      | .error e => .error e
+      | .ok synced =>
+        match FetchRange.calculateRangeToFetch head synced i.batchSize with
+        | .error e => .error e
+        | .ok nextBatch =>
+          if Range.isEmpty nextBatch then .ok (.idle .nothingToFetch)
+          else
+            match slowSyncStop slowMin i nextBatch with
+            | .error e => .error e
+            | .ok true => .ok (.idle .slowSync)
+            | .ok false =>
+              match addU64 nextBatch.2 1 with
+              | .error e => .error e
+              | .ok bound => .ok (windowGate prunedBoundCheck i synced nextBatch bound)
 
 /-- the current code -/
 def fetchDecision := fetchDecisionWith true
